@@ -155,46 +155,12 @@ def cxx(n):
     raise ValueError(k)
 
 
-def affine_static(n):
-    """is_always_scheduler_affine of the node's C++ type (needed to know what with_scheduler_affinity returns)"""
-    k, a, ch = n
-    if k in ("just", "jdone", "never", "scur"): return True
-    if k == "sleaf": return False
-    if k == "sched": return a[0] == "i"
-    if k == "wsa": return True
-    if k in ("then", "uns", "wq", "md", "dao"): return affine_static(ch[0])
-    if k in ("via", "tvia", "on"): return affine_static(ch[0]) and a[0] == "i"
-    return all(affine_static(c) for c in ch)
-
-
-def rb_mode(n):
-    """what evaluating the run-time CPO blocking(s) does on the node's C++ type:
-    'ok'      — compiles and returns
-    'crash'   — compiles, recurses forever (let_done.hpp:331 calls blocking(s) on itself)
-    'illformed' — does not compile (finally.hpp:689, let_value.hpp:429: inside the friend tag_invoke the
-                  name `blocking` finds the class's static data member, not the CPO)
-    sequence / when_all customise tag_t<blocking> with the SAME unqualified name, so their overloads are
-    for a different tag type and are never selected: blocking(s) answers S::blocking without recursing."""
-    k, a, ch = n
-    if k in ("just", "jdone", "sleaf", "never", "sched", "scur"): return "ok"
-    if k in ("seq", "wa", "on"): return "ok"
-    if k in ("lv", "fin", "via", "tvia"): return "illformed"
-    if k == "dao": return "crash" if rb_mode(ch[0]) != "illformed" else "illformed"
-    if k == "wsa": return rb_mode(ch[0]) if affine_static(ch[0]) else "ok"
-    if k == "sw":
-        m = [rb_mode(c) for c in ch]
-        return "illformed" if "illformed" in m else ("crash" if "crash" in m else "ok")
-    return rb_mode(ch[0])      # then uns wq md
-
-
-def tu_source(items, rb_crash_ids=()):
+def tu_source(items):
     """items: list of (id, sexpr)"""
     out = ['#include "typed_common.hpp"', ""]
     for i, e in items:
         out.append(f"// {i}: {e}")
-        m = rb_mode(parse(e))
-        rb = "true" if (m == "ok" or (m == "crash" and i in rb_crash_ids)) else "false"
-        out.append(f"static void case_{i}(char cmd) {{ typed_case<{rb}>({i}, cmd, [] {{ return {cxx(parse(e))}; }}); }}")
+        out.append(f"static void case_{i}(char cmd) {{ typed_case<true>({i}, cmd, [] {{ return {cxx(parse(e))}; }}); }}")
     out.append("const CaseEntry g_cases[] = {" + ", ".join(f"{{{i}, &case_{i}}}" for i, _ in items) + "};")
     out.append(f"const int g_ncases = {len(items)};")
     return "\n".join(out) + "\n"
@@ -212,14 +178,25 @@ def wsa_scoped(n, cur="0"):
     return all(wsa_scoped(c, cur) for c in ch)
 
 
+# POSITIVE compile checks: the run-time CPO blocking(s) must be well-formed for these senders (it was not
+# before /repo 1851e17 — inside the friend tag_invoke the unqualified name `blocking` found the class's
+# static data member — and recursed forever for let_done before b8af8c9); its value must be the static trait
 PROBES = {
-    "finally": "auto s = finally(just(1), just()); (void)blocking(s);",
-    "let_value": "auto s = let_value(just(1), [](int&) { return just(2); }); (void)blocking(s);",
+    "finally": "auto s = finally(just(1), just()); static_assert(blocking(s)() == sender_traits<decltype(s)>::blocking());",
+    # (schedule(s)'s sender_for wrapper has no constexpr blocking: only well-formedness here, the value is
+    #  compared at run time on every via / typed_via expression of the typed corpus)
+    "via": "auto s = via(just(1), inline_scheduler{}); (void)blocking(s);",
+    "let_value": "auto s = let_value(just(1), [](int&) { return just(2); }); static_assert(blocking(s)() == sender_traits<decltype(s)>::blocking());",
+    "let_done": "auto s = let_done(just_done(), [] { return just(); }); static_assert(blocking(s)() == sender_traits<decltype(s)>::blocking());",
+    "done_as_optional": "auto s = done_as_optional(just(1)); static_assert(blocking(s)() == sender_traits<decltype(s)>::blocking());",
 }
 PROBE_HDR = """#include <unifex/just.hpp>
+#include <unifex/just_done.hpp>
 #include <unifex/finally.hpp>
 #include <unifex/via.hpp>
 #include <unifex/let_value.hpp>
+#include <unifex/let_done.hpp>
+#include <unifex/done_as_optional.hpp>
 #include <unifex/inline_scheduler.hpp>
 #include <unifex/blocking.hpp>
 using namespace unifex;
@@ -258,12 +235,11 @@ class TypedPart:
         os.makedirs(gdir, exist_ok=True)
         for x in hdrs:
             shutil.copyfile(os.path.join(hdir, x), os.path.join(gdir, x))
-        crash_ids = [i for i, e in enumerate(exprs) if rb_mode(parse(e)) == "crash"][:1]
         tus = []
         for k in range(0, len(exprs), self.per_tu):
             items = [(i, exprs[i]) for i in range(k, min(len(exprs), k + self.per_tu))]
             path = os.path.join(gdir, f"tu_{k // self.per_tu}.cpp")
-            src = tu_source(items, crash_ids)
+            src = tu_source(items)
             if not os.path.exists(path) or open(path).read() != src:
                 open(path, "w").write(src)
             tus.append((path, items))
@@ -280,7 +256,7 @@ class TypedPart:
         for k, (exe, err) in enumerate(exes):
             if exe is None and ("error:" not in err or "Killed" in err or "internal compiler error" in err):
                 exes[k] = build(tus[k])
-        return tus, exes, crash_ids
+        return tus, exes
 
     def run(self, tier, seed, verdict, cov, driver):
         from . import vlib
@@ -293,10 +269,10 @@ class TypedPart:
             ok, txt = compile_probe(vlib, name, body)
             cov["evaluations"] += 1
             if not ok:
-                verdict.add(f"{self.name}: blocking(s) does not compile for {name} senders",
-                            "the run-time CPO unifex::blocking(s) is ill-formed: " + txt,
+                verdict.add(f"{self.name}: blocking(s) does not compile (or is not the static trait in a constant expression) for {name} senders",
+                            "the run-time CPO unifex::blocking(s) is ill-formed or inconsistent: " + txt,
                             dict(stream=self.name, probe=body, compiler=txt), found_input=True)
-        tus, exes, crash_ids = self.build_all(vlib, exprs)
+        tus, exes = self.build_all(vlib, exprs)
         stat = dict(exprs=0, rb_checked=0, rb_skipped=0, blocking_hist={}, affine=0, sends_done_false=0, multi_context=0)
         for (path, items), (exe, err) in zip(tus, exes):
             if exe is None:
@@ -317,9 +293,7 @@ class TypedPart:
                 cov["sanitizer_aborts"] = cov.get("sanitizer_aborts", 0) + 1
                 what = {"t": "printing the traits of", "b": "evaluating blocking(s) on", "d": "running"}[lines[k][0]]
                 if lines[k][0] == "b":
-                    # stable site: error kind + which algorithm's customisation is on the recursion path
-                    kind = site.split(" in ")[0]
-                    site = f"blocking(s) aborts with {kind}" + (" (let_done)" if "(dao" in exprs[i] else "")
+                    site = "blocking(s) aborts with " + site.split(" in ")[0]
                 verdict.add(f"{self.name}: {site}", f"the program aborted while {what} {exprs[i]}",
                             dict(stream=self.name, expr=exprs[i], command=lines[k], sanitizer_report=err2), found_input=True)
             for idx, (i, e) in enumerate(items):
@@ -345,8 +319,12 @@ class TypedPart:
                         stat["rb_skipped"] += 1
                     else:
                         stat["rb_checked"] += 1
-                        if rb != kv["b"]:
-                            verdict.add(f"{self.name}: blocking(s) differs from sender_traits<S>::blocking",
+                        if rb == kv["b"]:
+                            stat["rb_equal"] = stat.get("rb_equal", 0) + 1
+                        elif kv["b"] == "maybe":
+                            stat["rb_refined"] = stat.get("rb_refined", 0) + 1      # a run-time refinement of `maybe`
+                        else:
+                            verdict.add(f"{self.name}: blocking(s) inconsistent with sender_traits<S>::blocking",
                                         f"{e}: blocking(s) = {rb}, sender_traits<S>::blocking = {kv['b']}",
                                         dict(stream=self.name, expr=e, runtime=rb, static=kv["b"]), found_input=True)
                 if d is None or not d.startswith(f"D {i} "):
